@@ -107,6 +107,10 @@ def gen_cnr(tape, tier, max_chroms=6, size_classes=None, label="cnr", force_mirr
         if not mirror_arms:
             w[rng.random(n) < 0.05] = 1e-4
         w[rng.random(n) < zero_w_rate] = 0.0
+        if not mirror_arms and tape.chance(1, 12, label + ".tiny_weights"):
+            # a chromosome whose weights are all minute (but positive): sums far below any
+            # "is it zero?" tolerance
+            w = np.where(w > 0, w * 1e-10, 0.0)
         dp = np.exp2(l2) * 100.0
         null = rng.random(n) < null_rate
         if edge_nulls:
